@@ -43,7 +43,7 @@ REAL_VS_STUB = {"real": ["molli.chem.ensemble.ConformerEnsemble / Conformer", "_
 INTERP_VARIANTS = [{"flags": ["-O"], "runs": {"quick": 2000, "thorough": 30000}, "what": "python -O (assert statements stripped from the code under test)"}]
 PROBES = ["iter_plain", "iter_nested", "iter_zip", "iter_restart", "two_or_more_tasks_interleaved", "mutator_between_nexts", "append", "extend_list",
           "extend_ens", "extend_oneshot_iterable", "held_view_checked_after_mutation", "refused_append_or_extend", "atom_relabelled_between_stores", "copy_construct", "rebuild_from_conformers", "slice", "write_through_conformer", "serialise_roundtrip", "conformer_dump",
-          "empty_ensemble_iterated", "history_continues_on_reloaded_ensemble", "conformers_of_a_temporary_ensemble", "ensemble_dump_roundtrip"]
+          "empty_ensemble_iterated", "history_continues_on_reloaded_ensemble", "conformers_of_a_temporary_ensemble", "ensemble_dump_roundtrip", "own_conformers_appended"]
 
 TEMPLATES = {
     "neon": (["Ne"], []),
@@ -69,7 +69,7 @@ def gen_plan(r, tier, index):
     phases = []
     for _ in range(r.choice([2, 3, 3, 4, 5, 7])):
         if r.random() < 0.45:
-            phases.append({"type": "op", "op": r.choice(["append", "append", "extend_list", "extend_ens", "extend_gen", "extend_iter", "extend_tuple", "copy", "rebuild", "slice", "append_bad", "extend_bad", "reload", "reload", "temp_views"]),
+            phases.append({"type": "op", "op": r.choice(["append", "append", "extend_list", "extend_ens", "extend_gen", "extend_iter", "extend_tuple", "copy", "rebuild", "slice", "append_bad", "extend_bad", "reload", "reload", "temp_views", "append_self", "extend_self"]),
                            "n": r.choice([1, 1, 2, 3]), "cseed": r.randrange(1 << 30)})
         else:
             nt = r.choice([1, 1, 2, 2, 3])
@@ -273,6 +273,25 @@ def _run_plan(plan, trace=False):
                         mc = np.concatenate([mc, newc[k:k + 1]], axis=0)
                         st["mc"] = mc
                         check_inv(f"after append #{k + 1}")
+                elif op in ("append_self", "extend_self"):
+                    # conformers of the ensemble itself are geometries like any other: ens.append(ens[-1]) duplicates the
+                    # last conformer, ens.extend([ens[-1], ens[0]]) / ens.extend(ens) add copies of existing rows
+                    nc0 = mc.shape[0]
+                    if nc0 == 0:
+                        continue
+                    res.stats["probe:own_conformers_appended"] += 1
+                    rr = random.Random(ph["cseed"])
+                    if op == "append_self":
+                        i = rr.choice([-1, -1, 0, -nc0, nc0 - 1, rr.randrange(-nc0, nc0)])
+                        ens.append(ens[i])
+                        mc = np.concatenate([mc, mc[i:i + 1] if i != -1 else mc[-1:]], axis=0)
+                    elif rr.random() < 0.3 and nc0 <= 6:
+                        ens.extend(ens)
+                        mc = np.concatenate([mc, mc], axis=0)
+                    else:
+                        idx = [rr.choice([-1, 0, -nc0, rr.randrange(-nc0, nc0)]) for _ in range(ph["n"])]
+                        ens.extend([ens[i] for i in idx])
+                        mc = np.concatenate([mc] + [mc[i % nc0][np.newaxis] for i in idx], axis=0)
                 elif op == "extend_list":
                     res.stats["probe:extend_list"] += 1
                     ens.extend([_mk_mol(base["tmpl"], newc[k], "ext") for k in range(ph["n"])])
@@ -636,6 +655,11 @@ def _mutate(mo, st, res, viol, na, ser, deser, msgpack):
             if not np.allclose(b.coords, mc, rtol=0, atol=2e-4, equal_nan=True):
                 bad = [i for i in range(nc) if not np.allclose(b.coords[i], mc[i], rtol=0, atol=2e-4, equal_nan=True)]
                 viol("ensemble-dump-wrong-coordinates", f"{what} text of the ensemble: conformers {bad} read back with other coordinates than rows {bad}")
+        # the mol2 text carries the partial charges of every conformer too
+        q_now = np.asarray(ens.atomic_charges, dtype=float)
+        if tuple(b1.atomic_charges.shape) != (nc, na) or not np.allclose(b1.atomic_charges, q_now, rtol=0, atol=2e-3, equal_nan=True):
+            bad = [i for i in range(nc) if tuple(b1.atomic_charges.shape) != (nc, na) or not np.allclose(b1.atomic_charges[i], q_now[i], rtol=0, atol=2e-3, equal_nan=True)]
+            viol("ensemble-dump-wrong-charges", f"mol2 text of the ensemble: conformers {bad} read back with other partial charges than the ensemble holds")
     elif op == "serialise":
         try:
             back = deser(msgpack.loads(msgpack.dumps(ser(ens), use_single_float=True), use_list=False))
